@@ -43,6 +43,8 @@ def obligations(tier):
                        bounds="embedded-type sites and 2.1 extensions with index %% 8 == %d of 119 x every slot x legal value classes" % p))
         obls.append(CH("containers_p%d" % p, H, "containers", t, mode="E1s", functions=F, env={"VERIF_PART": str(p)},
                        bounds="every SDO/SRO class inside a bundle; 4 observed-data 2.0 containers with forward/backward references, alone and in a bundle (index %% 8 == %d)" % p))
+    obls.append(CH("marking_definition_contents", H, "marking_contents", t, mode="E1s", functions=F[:2] + ["stix2.v21.common.StatementMarking.__init__", "stix2.v20.common.StatementMarking.__init__"],
+                   bounds="22 marking definitions of both versions (statements incl. the empty string, the four TLP markings, 2.1 extension-defined) x alone / in a bundle"))
     obls.append(CH("granular_markings_deep_selectors", H, "deep_selectors", t, mode="E1s", functions=F + ["stix2.markings.utils.validate", "stix2.markings.utils._evaluate_expression",
                    "stix2.markings.utils.iterpath"], bounds="7 documents (12-element lists, 11 embedded objects, sibling dictionary keys that extend one another, nested "
                    "extensions, 2.0 observed-data members) x every JSON path of the document as the single selector, marking-ref and lang, alone and in a bundle"))
